@@ -8,10 +8,10 @@ finalizer relies on the put-credit lemma K <= free slots (K = 2 <= capacity + 1)
 import z3
 
 from pyvc.unit import LemmaUnit, LoopSpec
-from contracts.buffer import UNITS as BUF_UNITS, FINISHED, STOPPED
+from contracts.buffer import UNITS as BUF_UNITS, ENTRY_UNITS, FINISHED, STOPPED
 from contracts.fifo import FeedUnit, FeedUnitNoPre, ConsumerUnit, ConsumerUnitNoPre
 from contracts.c16 import AFeed, AFeedNoPre, AConsumer, AConsumerNoPre
-from contracts.c01 import ParmapperIter, ParmapperIterProcess
+from contracts.c01 import ParmapperIter, ParmapperIterProcess, EXECUTOR_FRAME
 from contracts.c12 import ThreadRun, ThreadRunNoTarget, ThreadJoin
 
 
@@ -66,8 +66,9 @@ class CreditLemma(LemmaUnit):
                [cap >= 1, maxsize == cap + 1, K == 1 + 1], K <= maxsize)
 
 
-UNITS = list(BUF_UNITS) + [FeedUnit, FeedUnitNoPre, FeedUnderStop, ConsumerUnit, ConsumerUnitNoPre, AFeed, AFeedNoPre, AFeedUnderStop, AConsumer, AConsumerNoPre,
-                           ParmapperIter, ParmapperIterProcess, ThreadRun, ThreadRunNoTarget, ThreadJoin, CreditLemma]
+from contracts.singlelane import UNITS as SL_UNITS      # noqa: E402  (no lost wake-up on the hand-off queue: what 'nothing blocks forever' rests on for every maxsize incl. 1)
+UNITS = list(BUF_UNITS) + list(ENTRY_UNITS) + list(SL_UNITS) + [FeedUnit, FeedUnitNoPre, FeedUnderStop, ConsumerUnit, ConsumerUnitNoPre, AFeed, AFeedNoPre, AFeedUnderStop, AConsumer, AConsumerNoPre,
+                           ParmapperIter, ParmapperIterProcess] + list(EXECUTOR_FRAME) + [ThreadRun, ThreadRunNoTarget, ThreadJoin, CreditLemma]
 ASSUMPTIONS = (
     'stream elements are not equal to the library\'s FINISHED/STOPPED sentinel strings; user sources and functions return (terminate)',
     'meta-theorem (DESIGN 2.4, not machine-checked): S1/S3/E3 obligations + fair scheduling => nothing blocks forever',
